@@ -205,7 +205,8 @@ def _ordering(w, e, s, l, r, op, outs):
     tl, tr = s.types(l), s.types(r)
     numeric = tl is not None and tr is not None and tl <= NUM and tr <= NUM
     same = tl is not None and tr is not None and len(tl) == 1 and tl == tr and tl <= {"str", "bytes", "list", "tuple"}
-    if not (numeric or same):
+    sets = tl is not None and tr is not None and tl <= {"set", "frozenset"} and tr <= {"set", "frozenset"}
+    if not (numeric or same or sets):
         conds = []
         if tr is not None and tr <= NUM:
             conds.append(("nottype", l, NUM))
